@@ -12,8 +12,9 @@ class Contract:
     """A contract = a driver run on every path of the real function(s) it names."""
 
     def __init__(self, prop, name, functions, driver, replay=None, tier="P", floor=1, note="",
-                 known=None, timeout_s=None, max_paths=None, shard_bits=0):
+                 known=None, timeout_s=None, max_paths=None, shard_bits=0, split=0):
         self.shard_bits = shard_bits
+        self.split = split
         self.prop, self.name, self.functions, self.driver = prop, name, functions, driver
         self.replay, self.tier, self.floor, self.note = replay, tier, floor, note
         self.known = known or []
